@@ -334,9 +334,11 @@ func H_C04_misc() {
 	}
 	k := VChoice(len(cases))
 	c := cases[k]
+	var protect LValue = LNil
 	if present {
 		if c.ev == "__metatable" {
-			mt.RawSetString(c.ev, LNumber(r))
+			protect = []LValue{LNumber(r), LFalse, LString("locked"), L.NewTable()}[VChoice(4)]
+			mt.RawSetString(c.ev, protect)
 		} else if c.ev == "__tostring" {
 			mt.RawSetString(c.ev, L.NewFunction(func(L *LState) int { calls++; a1 = L.Get(1); L.Push(LString("TS")); return 1 }))
 		} else {
@@ -368,7 +370,8 @@ func H_C04_misc() {
 		}
 	case 5:
 		if present {
-			VAssert(err == nil && sameValue(res, LNumber(r)), "misc: getmetatable returns the __metatable field")
+			VAssert(err == nil && sameValue(res, protect), "misc: getmetatable returns the __metatable field whatever its value (number, false, string, table)")
+			VAssert(sameValue(L.GetMetatable(t), protect), "misc: the Go API GetMetatable agrees")
 		} else {
 			VAssert(err == nil && res == LValue(mt), "misc: getmetatable returns the metatable")
 		}
